@@ -2765,6 +2765,22 @@ int add_program_file (const char *name, int top) {
   return program_file_id (name, top);
 }
 
+/**
+ * @brief Note a file an #include looked for before it found the one it opened.
+ * The saved binary of the program lists it with a leading '!': should that file exist
+ * later, the directive means another file and the binary no longer is what the source
+ * compiles to (see load_binary()).
+ */
+void add_program_missing_file (const char *path) {
+  char entry[PATH_MAX + 1];
+
+  if (!mem_block[A_INCLUDES].block || !path[0] || strlen (path) >= PATH_MAX)
+    return;
+  entry[0] = '!';
+  strcpy (entry + 1, path);
+  add_to_mem_block (A_INCLUDES, entry, strlen (entry) + 1);
+}
+
 void init_lpc_compiler(size_t max_locals, const char* include_dirs) {
   init_instrs ();
   init_identifiers ();
